@@ -18,7 +18,7 @@ def run(tier, seed):
     rng = random.Random(seed)
     q = tier == 'quick'
     stage_main.run_rows(chk)
-    cases = [dict(id=i, seed=rng.randrange(10 ** 9)) for i in range(640 if q else 16000)]
+    cases = [dict(id=i, seed=rng.randrange(10 ** 9)) for i in range(640 if q else 64000)]
     # a fixed grid of option combinations around the constructors that validate several options together
     W = ['-w', '5,0,0,5,0,0,15,0.001', '--excitation-pulse=3']
     grid = []
